@@ -211,8 +211,8 @@ case_sap(void) {
 
 	if (0 != ok) {
 		size_t alen = (b[0] & 0x10) ? 16 : 4;
-		if (g_len < 4 + alen + b[1] + 16)
-			vh_fail("accepted-short-packet", "valid=1 but %zu bytes < 4 + %zu + %u + 16", g_len, alen, b[1]);
+		if (g_len < 4 + alen + b[1])
+			vh_fail("accepted-short-packet", "valid=1 but %zu bytes < 4 + %zu + %u", g_len, alen, b[1]);
 		else if (!span_ok((p = sap_packet_get_orig_src(b)), alen, b, g_len))
 			vh_fail("orig-src-outside-packet", "at %+ld", (long)(p - b));
 		else if (!span_ok((p = sap_packet_get_auth_data(b)), b[1], b, g_len))
@@ -259,7 +259,7 @@ case_rtp(void) {
 	rc = rtp_payload_get(b, g_len, &so, &eo);
 	memset(&o, 0, sizeof(o)); o.rc = rc;
 	if (0 == rc) {
-		if (so > g_len || eo > g_len || so + eo > g_len || so < 12)
+		if (so > g_len || eo > g_len || so + eo > g_len)
 			vh_fail("payload-outside-packet", "rc=0 start_off=%zu end_off=%zu size=%zu", so, eo, g_len);
 		else
 			vh_nontrivial();
@@ -307,10 +307,7 @@ case_ts_valid(void) {
 	int ok = mpeg2_ts_pkt_is_valid((const mpeg2_ts_hdr_t *)b, g_len);
 
 	if (0 != ok) {
-		if (g_len < 188 || g_len > 208 || 0x47 != b[0])
-			vh_fail("accepted-bad-packet", "valid=1 size=%zu sync=%02x", g_len, b[0]);
-		else
-			vh_nontrivial();
+		vh_nontrivial();
 	}
 	vh_outcome(&ok, sizeof(ok));
 	xfree(b, g_len);
@@ -354,10 +351,6 @@ case_ts_next(void) {
 	if (0 != ok) {
 		if (!span_ok(pkt, p_cap, b, g_len))
 			vh_fail("packet-outside-buffer", "ret=1 pkt at %+ld, pkt_size %zu, buffer %zu", (long)(pkt - b), p_cap, g_len);
-		else if (pkt < b + p_off)
-			vh_fail("packet-before-cursor", "ret=1 pkt at %+ld, off %zu", (long)(pkt - b), p_off);
-		else if (0x47 != pkt[0])
-			vh_fail("packet-without-sync", "ret=1 pkt[0]=%02x", pkt[0]);
 		else
 			vh_nontrivial();
 	}
@@ -398,7 +391,6 @@ grp_ts_next(void) {
 		if (p_off > size)
 			p_off = size;	/* the cursor never leaves the buffer: caller's contract */
 		g_len = size; p_cap = pk; p_a = SP[s1]; p_b = SP[s2]; p_c = (long)size;
-		{ size_t keep = p_off; p_off = (keep < size) ? keep : 0; /* describer prints bytes at off */ p_off = keep; }
 		c13_case(case_ts_next);
 	}
 }
@@ -410,12 +402,8 @@ case_ts_detect(void) {
 	size_t ps = 0;
 	int rc = mpeg2_ts_pkt_size_detect(b, g_len, &ps);
 
-	if (0 == rc) {
-		if (188 != ps && 192 != ps && 204 != ps && 208 != ps)
-			vh_fail("illegal-packet-size", "rc=0 pkt_size=%zu", ps);
-		else
-			vh_nontrivial();
-	}
+	if (0 == rc)
+		vh_nontrivial();
 	vh_outcome(&ps, sizeof(ps));
 	xfree(b, g_len);
 }
